@@ -188,5 +188,71 @@ def run(prog, rep):
                                     late.append("%s can raise %s" % (tg.short, R.summary(tg)[0]))
             rep.check(bool(st_nodes) and not late, "ENF-1", "%s.%s setter: nothing after the store can raise" % (cname, prop), "ok",
                       "after storing the cardinality the setter can still fail: %s" % late[:3], setter.where)
+    enf2_rule(prog, rep)
+    from ..report import import_verdicts
+    import_verdicts(prog, rep, "C02", ("LOOP-1",), "LOOP-1",
+                    "the dictionary reader builds the keyword arguments of every Section / Property from the keys of that element alone: a container that "
+                    "survives from one sibling to the next hands the cardinality of the previous sibling to an element that has none")
+    import_verdicts(prog, rep, "C01", ("LOOP-1",), "LOOP-1",
+                    "the XML reader collects the attributes of an element from the child nodes of that element alone")
     rep.extra["exhaustive"] = True
     rep.assume("ints behave like their order type: the functions only compare, type-test and render them")
+
+
+def _same_object_atom(text, pol):
+    """is (text, polarity) the statement that the issue's object is `self`:  self.id == X.obj.id / X.obj is self / X.obj == self (or the negated forms, false)"""
+    try:
+        e = ast.parse(text, mode="eval").body
+    except SyntaxError:
+        return False
+    if not (isinstance(e, ast.Compare) and len(e.ops) == 1):
+        return False
+    op = e.ops[0]
+    if isinstance(op, (ast.Eq, ast.Is)):
+        want = True
+    elif isinstance(op, (ast.NotEq, ast.IsNot)):
+        want = False
+    else:
+        return False
+    if pol != want:
+        return False
+    a, b = unparse(e.left), unparse(e.comparators[0])
+    for l, r in ((a, b), (b, a)):
+        if l == "self.id" and r.endswith(".obj.id") and not isinstance(op, (ast.Is, ast.IsNot)):
+            return True
+        if l == "self" and r.endswith(".obj"):
+            return True
+    return False
+
+
+def enf2_rule(prog, rep, rule="ENF-2"):
+    """the warnings printed when a Section cardinality is assigned are those of that Section"""
+    from ..astutil import atoms_of
+    rep.rule(rule, "the Section re-validation helpers run the rule over the Section and all its descendants; every issue they print is printed on "
+                   "paths that know the issue belongs to the Section itself (self.id == <issue>.obj.id, <issue>.obj is self, or a filter of the "
+                   "iterated list saying so): a warning of a descendant is not reported for the ancestor whose cardinality was set")
+    n = 0
+    for field, (prop, helper, rulefn, kind) in sorted(FIELDS["BaseSection"].items()):
+        h = prog.cls("BaseSection").lookup_method(helper)
+        if h is None:
+            raise AnalysisError("BaseSection.%s vanished" % helper)
+        prints = effect_calls(prog, h, lambda c: isinstance(c.func, ast.Name) and c.func.id == "print")
+        for e in prints:
+            n += 1
+            guards = list(e.guards())
+            # a filter on the iterated list counts as a guard of the loop body
+            g = e.x.g
+            for hd in g.nodes:
+                if hd.kind == "for" and g.dominates(hd, e.inner) and isinstance(hd.ast.iter, (ast.ListComp, ast.GeneratorExp)) \
+                        and len(hd.ast.iter.generators) == 1 and isinstance(hd.ast.iter.elt, ast.Name) and isinstance(hd.ast.target, ast.Name):
+                    gen = hd.ast.iter.generators[0]
+                    if isinstance(gen.target, ast.Name) and gen.target.id == hd.ast.iter.elt.id:
+                        for cond in gen.ifs:
+                            for t, p in atoms_of(e.x.expand(cond, hd), True):
+                                guards.append((t, p))
+            good = any(_same_object_atom(t, p) for t, p in guards)
+            rep.check(good, rule, "%s: %s" % (h.short, unparse(e.raw)[:50]), "printed for the Section itself only",
+                      "%s prints an issue without knowing that it belongs to this Section (known here: %s): warnings of descendant Sections "
+                      "are reported when the cardinality of an ancestor is set" % (e.func.short, [t for t, p in guards][:4]), where(e.func, e.raw),
+                      witness="a sub-Section with a violated cardinality; assign any cardinality to its parent")
+    rep.floor(rule, n, 1, "issue prints in the Section re-validation helpers")
